@@ -44,8 +44,8 @@ CHECKS = {
          "Trusted: model::eval/model::jets/model::cmr/model::layout, the IR-first generator (each reachable IR node is materialised exactly once in a fresh context). Jet names and type names are read from the crate's tables (checked against C by C14). Only Core jets with a functional model are generated; others are covered differentially by C06.",
          "DESIGN.md §6 C05"),
  "C07": ("property-based testing with an instrumentation hook: generated programs and deep comp nests executed on generated inputs; invariant over the machine's high-water marks; directed type-bomb refusal cases",
-         "Exploration of an invariant: after every execution (incl. failing ones) max live cells <= width(src)+width(tgt)+extra_cells and max live frames <= extra_frames+2 (hook verif_high_water), no index panic / debug assertion (debug assertions are compiled in); programs with a 2^46..2^70-bit middle type must be refused by BitMachine::for_program. Bounds are observed to be tight on ~25% of cases, so an off-by-one in a formula is visible.",
-         "Trusted: the verif-hooks instrumentation (3 added statements in new_write_frame), the generators. The refusal threshold (2^45 cells) is far above MAX_CELLS so that a legitimate change of the limit cannot raise an alarm.",
+         "Exploration of an invariant: after every execution (incl. failing ones) max live cells <= width(src)+width(tgt)+extra_cells and max live frames <= extra_frames+2 (hook verif_high_water), no index panic / debug assertion (debug assertions are compiled in); programs with a 2^46..2^70-bit middle type must be refused by BitMachine::for_program, and so must programs with a wide target whose total bound (io + extra cells) exceeds the cell limit that the library itself reports in its refusal error, even when every single quantity is below it. Comp nests include elements that go through disconnect with a wide intermediate type. Bounds are observed to be tight on ~25% of cases, so an off-by-one in a formula is visible.",
+         "Trusted: the verif-hooks instrumentation (3 added statements in new_write_frame), the generators. The far refusal threshold (2^45 cells) is far above MAX_CELLS, and the near one is read from LimitError::MaxCellsExceeded{max}, so that a legitimate change of the limit cannot raise an alarm; nothing is demanded of programs below the limit. The frame limit is not aimed at.",
          "DESIGN.md §6 C07"),
  "C10": ("property-based testing over generated types x values x production histories, against a width-free tree model of the two bit layouts",
          "Exploration with a reference model (model::layout): every generated (type, value) is materialised through a drawn API history and compared bit-by-bit with the definition of the padded and compact layouts; decoders are checked for exact consumption, accessors/constructors for inversion on every sub-value, prune for the modelled projection (smaller, equal, incompatible targets; two-step = one-step).",
@@ -57,7 +57,7 @@ CHECKS = {
          "DESIGN.md §6 C11"),
  "C18": ("exhaustive enumeration of all DAG shapes up to 6 (thorough: 7) nodes + property-based testing of random shapes up to 300 nodes, against a recursive specification and a validity predicate",
          "Exploration, exhaustive for small shapes: an own DagLike implementation over bare shapes is iterated with NoSharing, InternalSharing and a class tracker modelling identity-hash sharing; post-order, right-to-left post-order, pre-order, verbose pre-order (with and without depth limit) and is_shared_as are compared with a recursive seen-set specification and an independent validity predicate (consecutive indices, children earlier, reported child indices hold the actual children).",
-         "Trusted: the recursive specification in harness/src/props/c18.rs. MaxSharing on real CommitNode/RedeemNode DAGs is exercised by the C01 check, not here.",
+         "Trusted: the recursive specifications in harness/src/props/c18.rs. Every shape of <= 48 nodes is also built as a DAG of real CommitNodes (unit/iden, injl, pair) and walked with the library's own MaxSharing<Commit> and InternalSharing trackers on &Node and Arc<Node> (post-order items, pre-order set, is_shared_as for the three policies) against a recursive specification over pointers / identity hashes.",
          "DESIGN.md §6 C18"),
  "C06": ("property-based differential testing of the Rust Bit Machine against libsimplicity's evaluator: generated Elements programs and per-jet templates (all 471 jets) x generated witnesses x generated transaction environments; verdict comparison",
          "Exploration with a differential partner: the verdict of BitMachine::exec (success / assertion / jet failure) must equal the verdict of evalTCOExpression(CHECK_NONE) on the program's serialisation in the same marshalled environment. Per-jet templates compare the jet's output inside the program with the value the Rust machine observed (combinator-only equality feeding assertr or the verify jet), so the verdict depends on every output bit as the C evaluator computes it; one-bit mutations of the expected value must fail with the predicted kind on both sides.",
@@ -72,7 +72,7 @@ CHECKS = {
          "Trusted: the independent text printer gen::text (a text it prints may be rejected, e.g. for an ascription that no longer fits; only accepted texts are held to the round trip), the walk comparison shared with C01. Texts > 40 kB and renderings > 120 kB are skipped for cost (the lexer is quadratic). Allocation growth of parse and panics of the ErrorSet display with source attached are labelled observations, outside the statement.",
          "DESIGN.md §6 C17"),
  "C20": ("property-based testing over generated job batches and thread assignments: sequential run vs concurrent run on 2-16 OS threads with a start barrier; per-job digest equality",
-         "Exploration with a determinism oracle: every job (type inference in a fresh context, witness attachment, encode/decode, roots, bounds, execution with C jets, prune, text render/parse, Value hashing/comparison on Arcs shared between threads) returns a digest of everything it computed; digests of the concurrent run must equal those of the sequential run and no thread may panic. The harness does not own the scheduler: interleavings are whatever 16 cores produce under a barrier start, so this can only find races that manifest readily.",
+         "Exploration with a determinism oracle: every job (type inference in a fresh context, witness attachment, encode/decode, roots, bounds, execution with C jets, prune, text render/parse, Value hashing/comparison on Arcs shared between threads) returns a digest of everything it computed; digests of the concurrent run must equal those of the sequential run and no thread may panic. A further job kind records the first-occurrence pattern of the names of n fresh type variables of one context (unique names <=> 0,1,2,..). In 19% of the batches the concurrent run happens in a fresh child process that has not used the library before (first-use initialisation under contention), in another 19% before the sequential run. The harness does not own the scheduler: interleavings are whatever 16 cores produce under a barrier start, so this can only find races that manifest readily.",
          "Trusted: the digest functions; thread assignment is drawn from the stream but OS scheduling is not reproducible: a replay file reproduces the batch and assignment, not the interleaving. Weak level by nature of the technique (stated in DESIGN.md §6 C20).",
          "DESIGN.md §6 C20"),
  # id: (technique, level text, level note, design ref)
